@@ -60,6 +60,23 @@ def pick (l r : Int) (ops : List Int) (xi : Rat) : Option (Nat × Nat × Nat) :=
   let n := sumLens arr
   if n = 0 then none else pickGo n xi 0 arr
 
+/-! ### the seed of a wire-fencing move
+
+`wire_fencing(ens_set, trial_path, engine)` (tis.py): with `cap = tis_set.get("interface_cap", interfaces[2])`
+it builds `wf_int = [interfaces[1], interfaces[1], cap]`, calls
+`wirefence_weight_and_pick(trial_path, wf_int[0], wf_int[2], return_seg=True)` and, when the weight is not 0,
+hands the returned segment with the sub-ensemble interfaces `wf_int` to `shoot`. -/
+
+structure MoveSeed where
+  subIntf : List Int            -- interfaces of the sub-ensemble the jumps are shot in
+  seg     : Nat × Nat × Nat     -- (entry index, exit index, interior frames) of the seeding sub-path
+deriving Repr, DecidableEq
+
+/-- `none` = "NSG" without any MD (`n_frames == 0`). -/
+def wfMoveSeed (i1 i2 : Int) (cap : Option Int) (ops : List Int) (xi : Rat) : Option MoveSeed :=
+  let c := cap.getD i2
+  (pick i1 c ops xi).map (fun seg => { subIntf := [i1, i1, c], seg := seg })
+
 /-! ### start / end classification and the weight vector -/
 
 inductive Side | L | R | U   -- U = undefined ('?' for start, None for end)
